@@ -40,7 +40,9 @@ def gen_variant(rng):
     """values for every field of every class, from the whole of each field's domain (boundaries included): a guard looks at the type,
     never at these"""
     import aioswitcher.device as d
-    return {"state": rng.choice(["ON", "OFF"]), "id": rng.randbytes(3).hex(), "key": "%02x" % rng.randrange(256),
+    up = rng.random() < 0.3
+    return {"state": rng.choice(["ON", "OFF"]), "id": rng.randbytes(3).hex().upper() if up else rng.randbytes(3).hex(),
+            "key": ("%02X" if up and rng.random() < 0.7 else "%02x") % rng.randrange(256),
             "ip": ".".join(str(rng.choice([0, 1, 10, 127, 192, 255, rng.randrange(256)])) for _ in range(4)),
             "mac": ":".join("%02X" % rng.choice([0, 255, rng.randrange(256)]) for _ in range(6)),
             "name": rng.choice(["", "a", "Boiler", "\u05d3\u05d5\u05d3", "x" * 32, "\u05d0" * 16]),
